@@ -488,6 +488,8 @@ func genProbeX(r *gen.Rand, forceClass string, xsrcSel string) probeSpec {
 		for i := r.Intn(4); i > 0; i-- {
 			q.Target += "/" + seg(r, tag) + "o"
 		}
+	case 6:
+		q.Target = "/admin/probeplain"
 	}
 	var qs []string
 	if r.Chance(1, 3) {
@@ -573,6 +575,23 @@ func normDate(b []byte) []byte {
 		}
 		off = s + e
 	}
+}
+
+// gateConn is a scripted connection whose first Write blocks until it is released.
+type gateConn struct {
+	*drive.ScriptConn
+	reached chan struct{}
+	release chan struct{}
+	once    bool
+}
+
+func (g *gateConn) Write(p []byte) (int, error) {
+	if !g.once {
+		g.once = true
+		close(g.reached)
+		<-g.release
+	}
+	return g.ScriptConn.Write(p)
 }
 
 // remoteAddr: peer 0 is the drive package's default (203.0.113.7), peer 1 another host.
@@ -717,6 +736,11 @@ type isoCase struct {
 	Probe   probeSpec
 	// HistRemote / ProbeRemote: the peers the history's and the probe's connections come from
 	HistRemote, ProbeRemote int
+	// WriteGate (with Intruders): the probe is not parked in its handler but where the server
+	// writes its response — the first Write on the probe's connection blocks until the intruders
+	// have been served. The probe's response is larger than the server's write buffer, so part of
+	// it is still to be serialised at that moment.
+	WriteGate bool
 	// Intruders (overlap cases): requests served on other connections while the probe, which
 	// carries hold=1, is parked inside its handler. The reference run parks and releases the
 	// probe with nothing in between.
@@ -755,6 +779,32 @@ func judgeIso(e *ev.Env, c *ev.Case, ic isoCase) {
 	serveProbe := func(w *drive.Wire, s *isoSink, intruders []wreq) served {
 		if !overlap {
 			return serveScript(w, []wreq{probeReq})
+		}
+		if ic.WriteGate {
+			gc := &gateConn{ScriptConn: drive.NewScriptConn(probeReq.Raw, remoteAddr(probeReq.Remote)),
+				reached: make(chan struct{}), release: make(chan struct{})}
+			done := make(chan struct{})
+			go func() { _ = w.App.Server().ServeConn(gc); close(done) }()
+			var sv served
+			select {
+			case <-gc.reached:
+				if len(intruders) > 0 {
+					isv := serveScript(w, intruders)
+					e.Stat("intruder_requests", int64(isv.responses))
+				}
+				close(gc.release)
+				<-done
+			case <-done:
+				sv.problem = "the probe's response was written without reaching the gate"
+			}
+			sv.conns = 1
+			rs, prob := splitResponses(gc.Output())
+			if prob != "" || len(rs) != 1 {
+				sv.problem += fmt.Sprintf(" gate connection: %d responses %s", len(rs), prob)
+				return sv
+			}
+			sv.responses, sv.probeResp, sv.probeRaw = 1, rs[0], normDate(rs[0].Raw)
+			return sv
 		}
 		s.holdAt, s.release = make(chan struct{}), make(chan struct{})
 		done := make(chan served, 1)
@@ -847,7 +897,7 @@ func judgeIso(e *ev.Env, c *ev.Case, ic isoCase) {
 		if fsv.probeResp != nil {
 			st = fsv.probeResp.Status
 		}
-		e.Inconclusive(fmt.Sprintf("%s: probe not observed (fresh: %q probes=%d status=%d; history: %q probes=%d; probe %s %q)", c.ID, fsv.problem, fs.probes, st, hsv.problem, hs.probes, ic.Probe.Variant, string(ic.Probe.Raw)))
+		e.Inconclusive(fmt.Sprintf("%s: probe not observed (fresh: %q probes=%d status=%d; history: %q probes=%d; probe %s %q)", c.ID, fsv.problem, fs.probes, st, hsv.problem, hs.probes, ic.Probe.Variant, string(ic.Probe.Raw[:min(len(ic.Probe.Raw), 300)])))
 		return
 	}
 	if fs.reused {
@@ -1296,6 +1346,45 @@ func runIsolation(e *ev.Env) {
 		}
 		ps.Raw = append(append(append([]byte(nil), line...), []byte(sep+"hold=1")...), ps.Raw[len(line):]...)
 		ic.Probe = ps
+		judgeIso(e, c, ic)
+	})
+	// directed family: a handler echoes a long value of the request as the response body; the
+	// response is larger than the write buffer, and while the server is in the middle of writing it
+	// other connections are served
+	e.Cases("writegate", e.N(200, 5000), func(c *ev.Case) {
+		r := c.R
+		ic := isoCase{Cfg: isoCfg{Custom: r.Chance(1, 3), PassLocals: r.Bool(), Immutable: r.Chance(1, 4)}}
+		ic.Cfg.widen(r)
+		ic.Cfg.BigBuf = true
+		ic.WriteGate = true
+		n := r.Range(5000, 9000)
+		mk := func(tag string, probe bool) []byte {
+			long := tag + r.StringFrom(gen.AlphaNum, n-len(tag))
+			via := gen.Pick(r, []string{"params", "params", "path", "query", "header"})
+			how := gen.Pick(r, []string{"sendstring", "sendstring", "sendstring", "writestring", "write"})
+			q := &reqSpec{Host: gen.Pick(r, hosts)}
+			q.Target = "/echo/" + tag + "?via=" + via + "&how=" + how
+			switch via {
+			case "params", "path":
+				q.Target = "/echo/" + long + "?via=" + via + "&how=" + how
+			case "query":
+				q.Target += "&q=" + long
+			case "header":
+				q.Hdr = append(q.Hdr, [2]string{"X-Echo", long})
+			}
+			if probe {
+				q.Target += "&probe=1"
+			}
+			return q.raw()
+		}
+		for i := r.Intn(2); i > 0; i-- {
+			ic.History = append(ic.History, wreq{Kind: "echo", Raw: mk("h"+strconv.Itoa(len(ic.History))+"x", false), Cookie: ckNone})
+		}
+		ic.Intruders = []wreq{}
+		for i := r.Range(1, 3); i > 0; i-- {
+			ic.Intruders = append(ic.Intruders, wreq{Kind: "echo", Raw: mk("i"+strconv.Itoa(len(ic.Intruders))+"x", false), Cookie: ckNone, EndConn: r.Bool()})
+		}
+		ic.Probe = probeSpec{Route: -1, Class: ckNone, Variant: "echo", Raw: mk("PRB", true)}
 		judgeIso(e, c, ic)
 	})
 	if e.Only == "" {
